@@ -4,7 +4,7 @@ import json
 CLAIMED = {
  "C14": dict(level="fault_enumeration", design="DESIGN.md §4.6",
    technique="deterministic fault injection: structure-aware at-rest faults (retarget / boundary / nest / hostile xref fields) planted through the harness writer, walked under simulated resource limits (stack size, allocator caps and meters, work budget) in supervised worker processes",
-   text="Typed templates covering the followed reference fields and numeric parameters named in the property; the complete single-fault space (every reference field x every object incl. itself, object 0 and an undefined number; every numeric field x six boundary values; nesting; stream /Length references; hostile trailer and xref-stream fields incl. /Prev self-loops) is enumerated for all 21 templates (incl. DAG page / name / number trees, font / appearance / JBIG2 DAGs, a 3000-link parent chain, a 60-link ICC chain, text strings and dates, embedded files / metadata / structure tree / outline destinations, RC4-encrypted documents that open) in four configurations with and without bytes before the header (thorough; the quick tier alternates that last dimension, thins retarget targets and takes every third name / string value); further single faults: stream data replaced by 66 hostile payloads, hostile stream-dictionary entries, every string value x 14 hostile strings, every name value x 34 reader-selecting names, arrays made longer or shorter, objects replaced by one-element arrays around a reference to themselves, two numbers of one stream dictionary set to the same boundary value, small values for geometry and codec parameters, 25- and 5000-level nesting, plus seeded 2-3-fault cases (100 000 quick / 2 000 000 thorough); each case is walked through every read entry point with panics caught, stack overflow / abort / allocation refusal / timeout observed as worker death and confirmed twice.",
+   text="Typed templates covering the followed reference fields and numeric parameters named in the property; the complete single-fault space (every reference field x every object incl. itself, object 0 and an undefined number; every numeric field x six boundary values; nesting; stream /Length references; hostile trailer and xref-stream fields incl. /Prev self-loops and /Prev naming any other section) is enumerated for all 22 templates (incl. DAG page / name / number trees, font / appearance / JBIG2 DAGs, a 3000-link parent chain, a 60-link ICC chain, text strings and dates, embedded files / metadata / structure tree / outline destinations, RC4-encrypted documents that open) in four configurations with and without bytes before the header (thorough; the quick tier alternates that last dimension, thins retarget targets and takes every third name / string value); further single faults: stream data replaced by 66 hostile payloads, hostile stream-dictionary entries, every string value x 14 hostile strings, every name value x 34 reader-selecting names, arrays made longer or shorter, objects replaced by one-element arrays around a reference to themselves, two numbers of one stream dictionary set to the same boundary value, small values for geometry and codec parameters, 25- and 5000-level nesting, plus seeded 2-3-fault cases (100 000 quick / 2 000 000 thorough); each case is walked through every read entry point with panics caught, stack overflow / abort / allocation refusal / timeout observed as worker death and confirmed twice.",
    note="Planting the structure is generation (stated in DESIGN.md); the simulation part is the resource side. Templates are small; resource constants are loose bounds against unboundedness."),
  "C01": dict(level="fault_enumeration", design="DESIGN.md §4.5",
    technique="deterministic fault injection on the storage seam (at-rest corruption, EOF anywhere, sector faults, splices) + metered allocator / stack / work budgets, each case walked through every read entry point in a supervised worker process",
@@ -12,7 +12,7 @@ CLAIMED = {
    note="Covers 'valid file + storage faults', not arbitrary byte strings nor grammar-generated texts; resource constants are deliberately loose bounds against unboundedness."),
  "C02": dict(level="exploration", design="DESIGN.md §4.4",
    technique="deterministic simulation of successive writers appending revisions to an append-only medium, crash points at every revision boundary; log-replay ordering check against a 'newest mention wins' map model",
-   text="Seeded update histories (1-8 revisions, 3-12 object numbers; classic tables and xref streams with arbitrary subsection / Index splits, W widths incl. width 0, filters (stored Flate, ASCIIHex, LZW, ASCII85 with short final groups, ASCIIHex over Flate) and predictors (rows declared as 8-bit, two-colour, 16-bit or 4-bit samples); objects direct, compressed in one or two object streams, freed with generation+1, reused; Size growth; moving Root; trailers with and without /Info; one history in five RC4-encrypted with the harness's own security handler) written by the harness's independent writer and cross-checked by its strict reader; the library opens the medium after every append in strict+uncached and tolerant+cached mode and every object number below /Size plus the trailer is compared with the model. Sampling, not proof.",
+   text="Seeded update histories (1-8 revisions, 3-12 object numbers; classic tables and xref streams with arbitrary subsection / Index splits incl. Index pairs with count 0, W widths incl. width 0, filters (stored Flate, ASCIIHex, LZW, ASCII85 with short final groups, ASCIIHex over Flate) and predictors (rows declared as 8-bit, two-colour, 16-bit or 4-bit samples); objects direct, compressed in one or two object streams, freed with generation+1, reused; Size growth; moving Root; trailers with and without /Info; one history in five RC4-encrypted with the harness's own security handler) written by the harness's independent writer and cross-checked by its strict reader; the library opens the medium after every append in strict+uncached and tolerant+cached mode and every object number below /Size plus the trailer is compared with the model. Sampling, not proof.",
    note="Trusted: the harness writer + strict reader. Torn final appends, hybrid files and generation-rule violations are outside the statement."),
  "C09": dict(level="exploration", design="DESIGN.md §4.3",
    technique="deterministic simulation of a store (put/read/sync/restart) with injected save failures and refusing sinks; step-by-step refinement against a map model, durability and prefix checks after every successful save",
@@ -20,7 +20,7 @@ CLAIMED = {
    note="Update targets exclude objects the document needs to open; integers and reals of equal numeric value are identified when compared; file system is real apart from the refusing sinks."),
  "C12": dict(level="exploration", design="DESIGN.md §4.2",
    technique="deterministic simulation of call histories with cache-eviction fault injection; refinement check of the cached document against the uncached single-call reference model",
-   text="Histories of read calls (typed loads incl. wrong types, raw resolves, stream data, raw and decoded image data, page look-ups, lazy loads; resolver reuse/renewal; set_options switches, as a whole or of a single option on documents with unclosed objects) on a document (generated families incl. cyclic, deep and dangling-reference documents, corpus) with real SyncCache caches in three cache modes, with eviction faults between and inside calls; each call's answer must equal the answer of that call alone on a fresh uncached document. Complete enumeration of ordered pairs (quick) / triples (thorough) of call kinds per sampled object, plus seeded random histories; fault-free and fault batches counted separately.",
+   text="Histories of read calls (typed loads incl. wrong types, raw resolves, stream data, raw and decoded image data, page look-ups, lazy loads; resolver reuse/renewal; set_options switches, as a whole or of a single option on documents with unclosed objects) on a document (generated families incl. cyclic, deep and dangling-reference documents, documents with unclosed objects, documents whose catalog is in an object stream, corpus) with real SyncCache caches in three cache modes, with eviction faults between and inside calls; each call's answer must equal the answer of that call alone on a fresh uncached document opened under the same options; a document that opens without caches must open with them. Complete enumeration of ordered pairs (quick) / triples (thorough) of call kinds per sampled object, plus seeded random histories; fault-free and fault batches counted separately.",
    note="Reference model is the library's own uncached behaviour; digests via canonicalised Debug renderings; objects of large corpus files are sampled."),
  "C13": dict(level="exploration", design="DESIGN.md §4.1",
    technique="deterministic simulation: seeded baton scheduler over real OS threads at the Cache/Log seams + eviction fault injection; linearizability-style check of every answer against the sequential (alone) answer; second engine: the same scenarios under Miri's seeded scheduler (no stubs)",
